@@ -278,20 +278,24 @@ def _run(tier, seed, tmp, t0):
         if r["kind"] == "pass" and st["steps"] < 2:
             raise MachineryError(f"single-pass sequence {r['id']} stopped after {st['steps']} steps")
 
-    # ---- vacuity
+    # ---- vacuity (only meaningful when nothing diverged: a divergence stops its sequence)
     w_ids = {i for i, c in classes.items() if c["cls"] == "W"}
-    flagged = {v["case"]["steps"][v["case"]["failed_at"]].get("ep", {}).get("id") for v in viol}
-    missing = sorted(w_ids - refused_eps - set(skipped) - flagged)
-    if missing and not per_sig:
-        raise MachineryError(f"{len(missing)} mutating entry points were never observed in mode r: {missing[:5]}")
     all_ids = {i for i, c in classes.items() if c["cls"] != "X"}
-    if len(exercised) < len(all_ids) - len(skipped) - 5 and not per_sig:
-        raise MachineryError(f"only {len(exercised)} of {len(all_ids)} entry points were exercised")
-    for h in ("read_ui_json", "input_file", "input_file_ws", "path2workspace", "monitored_copy"):
-        if helpers_ok[h] < 1:
-            raise MachineryError(f"helper {h} never succeeded on the pristine read-only fixture: the helper part would be vacuous")
-    if writes_refused < MIN_REFUSED and not per_sig:
-        raise MachineryError("too few refused writes observed")
+    if not per_sig:
+        missing = sorted(w_ids - refused_eps - set(skipped))
+        if missing:
+            raise MachineryError(f"{len(missing)} mutating entry points were never observed in mode r: {missing[:5]}")
+        if len(exercised) < len(all_ids) - len(skipped):
+            raise MachineryError(f"only {len(exercised)} of {len(all_ids)} entry points were exercised")
+        for h in ("read_ui_json", "input_file", "input_file_ws", "path2workspace", "monitored_copy"):
+            if helpers_ok[h] < 1:
+                raise MachineryError(f"helper {h} never succeeded on the pristine read-only fixture: the helper part "
+                                     f"would be vacuous")
+        if writes_refused < MIN_REFUSED:
+            raise MachineryError("too few refused writes observed")
+        for act in ("Open", "ReOpen", "Close", "SaveAs", "Read", "Write", "Probe", "Helper", "FetchEnter", "FetchExit"):
+            if acts[act] < 5:
+                raise MachineryError(f"action {act} was replayed {acts[act]} times only")
 
     total_labels = sum(1 for s in ideal.out for lk in ideal.out[s])
     families = defaultdict(set)
